@@ -734,9 +734,13 @@ pub async fn handle_changes(
             let mut dropped_count = 0;
             if let Some((dropped_change, _, _)) = queue.pop_front() {
                 for v in dropped_change.versions() {
-                    if let Entry::Occupied(mut entry) = seen.entry((change.actor_id, v)) {
+                    // forget what we drop (under its own actor) so it is accepted when offered again
+                    if let Entry::Occupied(mut entry) = seen.entry((dropped_change.actor_id, v)) {
                         if let Some(seqs) = dropped_change.seqs().cloned() {
                             entry.get_mut().remove(seqs);
+                            if entry.get().is_empty() {
+                                entry.swap_remove_entry();
+                            }
                         } else {
                             entry.swap_remove_entry();
                         }
